@@ -16,7 +16,7 @@ for id in $ids; do
     # carry over uncommitted changes of /repo so that the scratch tree equals the working tree
     git -C /repo diff HEAD | git -C "$wt" apply --allow-empty 2>/dev/null
     if ! git -C "$wt" apply "$PWD/$p" 2>/dev/null; then echo "SELFTEST $id $(basename $p): patch does not apply"; rc=1; git -C /repo worktree remove --force "$wt"; continue; fi
-    out=$(VERIF_REPO="$wt" VERIF_SCRATCH=/root/.cache/verif-selftest/build ./bin/verif check $id --tier quick 2>/dev/null); code=$?
+    out=$(VERIF_REPO="$wt" VERIF_SCRATCH=/root/.cache/verif-selftest/build.$$ ./bin/verif check $id --tier quick 2>/dev/null); code=$?
     git -C /repo worktree remove --force "$wt"
     if [ $code -eq 1 ] && echo "$out" | grep -q "^VIOLATION property=$id"; then
       echo "SELFTEST $id $(basename $p): detected ($(echo "$out" | grep -c '^VIOLATION') violation signatures)"
@@ -27,5 +27,5 @@ for id in $ids; do
 done
 # the evidence file of <ID> was rewritten by the mutated run: refresh it from the real tree
 for id in $ids; do ./bin/verif check $id --tier quick >/dev/null 2>&1; done
-rm -rf /root/.cache/verif-selftest/build
+rm -rf /root/.cache/verif-selftest/build.$$
 exit $rc
